@@ -5,7 +5,7 @@
 (* custom actions, virtual keys, idle timers), is_idle and                 *)
 (* can_block_update_idle_waiting.  Same functional style as Layout.tla.    *)
 (***************************************************************************)
-EXTENDS Layout, Overrides
+EXTENDS Layout, Overrides, KeyRepeat, DynMacro
 
 \* OS events: <<kind, arg>>  kind \in {"d","u","bd","bu","U","sc","mv","code"}
 Ev(k, a) == <<k, a>>
@@ -18,7 +18,9 @@ BtnOf(c) == CASE c = 272 -> "Left" [] c = 273 -> "Right" [] c = 274 -> "Mid"
 InitK ==
   [ L |-> InitLayout, prev |-> <<>>, out |-> <<>>,
     wfi |-> {}, vpr |-> <<>>, tsi |-> 0, mcd |-> 0, lrr |-> FALSE,
-    scroll |-> <<>>, hscroll |-> <<>>, lpk |-> 0 ]
+    scroll |-> <<>>, hscroll |-> <<>>, lpk |-> 0,
+    um |-> <<>>, us |-> <<>>, umm |-> 0,      \* unmodded_keys, unshifted_keys, unmodded_mods (bits)
+    dyn |-> DmInit ]        \* dynamic macros (DynMacro.tla): record / replay state, stored macros
 
 \* src: output_logic.rs press_key / release_key (zippychord disabled => plain)
 PressKeyOut(c) ==
@@ -44,7 +46,11 @@ FakeKeyOp(L, op, x, y) ==
 
 \* ----- handle_input_event (702-745) ----------------------------------------------
 HandleInput(K, kind, code) ==
-  LET K0 == [K EXCEPT !.tsi = 0, !.out = <<>>] IN
+  \* 708-714 / 727: record_press / record_release see the event when it arrives (before the layout)
+  LET K0 == [K EXCEPT !.tsi = 0, !.out = <<>>,
+                      !.dyn = CASE kind = "d" -> DmRecordPress(@, code, Opts.dynamic_macro_max_presses)
+                                [] kind = "u" -> DmRecordRelease(@, code)
+                                [] OTHER -> @] IN
   CASE kind = "d" ->
          LET K1 == IF K0.mcd > 0
                    THEN [K0 EXCEPT !.mcd = 0, !.L.seqs = <<>>,
@@ -53,6 +59,9 @@ HandleInput(K, kind, code) ==
          IN [K1 EXCEPT !.L = EventL(@, Qd(TRUE, 0, code))]
     [] kind = "u" -> [K0 EXCEPT !.L = EventL(@, Qd(FALSE, 0, code))]
     [] kind = "p" -> [K0 EXCEPT !.L = EventL(EventL(@, Qd(TRUE, 0, code)), Qd(FALSE, 0, code))]
+    \* src: mod.rs:730-733 KeyValue::Repeat -> handle_repeat (key_repeat.rs; KeyRepeat.tla): the layout is untouched
+    [] kind = "r" -> IF TransOrderPanics(K0.L) THEN [K0 EXCEPT !.L = Panic(@, "heapless:layer_stack")]
+                     ELSE [K0 EXCEPT !.out = KrRepeatOut(K0.L, K0.um, K0.us, code)]
     [] OTHER -> K0
 
 \* ----- handle_keystate_changes (1019-1791) ----------------------------------------
@@ -69,6 +78,9 @@ PressesOut(cur, prev, out, lpk) ==
        IF Contains(prev, k) THEN PressesOut(Tail(cur), prev, out, lpk)
        ELSE PressesOut(Tail(cur), Append(prev, k), out \o PressKeyOut(k), k)
 
+\* a dynamic-macro operator that may have hit a panic site (dynamic_macro.rs:183 / :262)
+DynApply(K, D) == IF D.pn # "" THEN [K EXCEPT !.L = Panic(@, D.pn)] ELSE [K EXCEPT !.dyn = D]
+
 \* one custom action on press; K carries L/out etc.
 CustomPress(K, c) ==
   CASE c.c = "fakekey" -> [K EXCEPT !.L = FakeKeyOp(@, c.op, c.x, c.y)]
@@ -83,6 +95,10 @@ CustomPress(K, c) ==
     [] c.c = "mousetap" -> [K EXCEPT !.out = @ \o <<Ev("bd", c.btn), Ev("bu", c.btn)>>]
     [] c.c = "lrld" -> [K EXCEPT !.lrr = TRUE]
     [] c.c = "cancel_macro_press" -> [K EXCEPT !.mcd = c.d]
+    \* src: mod.rs DynamicMacroRecord / DynamicMacroRecordStop / DynamicMacroPlay arms (1590-1612)
+    [] c.c = "dynrec" -> DynApply(K, DmBeginRecord(K.dyn, c.n))
+    [] c.c = "dynstop" -> DynApply(K, DmStopMacro(K.dyn, c.n))
+    [] c.c = "dynplay" -> [K EXCEPT !.dyn = DmPlayMacro(@, c.n)]
     [] OTHER -> K
 
 RECURSIVE CustomPressAll(_, _, _)
@@ -134,12 +150,15 @@ ApplyOverrides(L, cur) ==
 HandleKeystateChanges(K) ==
   LET r == TickL(K.L)
       ce == r.ce
-      ov == ApplyOverrides(r.L, Keycodes(r.L))
+      \* src: mod.rs:1050-1107 unmod / unshift edit cur_keys before the overrides (KeyRepeat.tla KrUnmodStep)
+      un == KrUnmodStep(K.um, K.us, K.umm, ce.k, IF ce.k = "none" THEN <<>> ELSE CuList(ce), Keycodes(r.L))
+      ov == ApplyOverrides(r.L, un.cur)
       cur == ov.cur
       prevOrder == IF RevRelease(ce) THEN Reverse(K.prev) ELSE K.prev
       rel == ReleasesOut(prevOrder, cur)
       pr == PressesOut(cur, K.prev, <<>>, K.lpk)
-      K1 == [K EXCEPT !.L = ov.L, !.out = rel \o pr.out, !.lpk = pr.lpk]
+      K1 == [K EXCEPT !.L = ov.L, !.out = rel \o pr.out, !.lpk = pr.lpk,
+                      !.um = un.um, !.us = un.us, !.umm = un.umm]
       K2 == CASE ce.k = "press" -> CustomPressAll(K1, CuList(ce), "")
               [] ce.k = "release" -> CustomReleaseAll(K1, CuList(ce), "")
               [] OTHER -> K1
@@ -167,7 +186,8 @@ HeldVkeys(L, vpr, acc) ==
 TickStates(K) ==
   LET K1 == HandleKeystateChanges(K)
       K2 == IdleFire(K1, K1.wfi)
-      K3 == [K2 EXCEPT !.mcd = SatSub(@, 1)]
+      K3 == [K2 EXCEPT !.mcd = SatSub(@, 1),
+                       !.dyn = DmTickRecord(@, Caps.age)]     \* 853 tick_record_state
       hv == HeldVkeys(K3.L, K3.vpr, <<>>)
   IN [K3 EXCEPT !.L = hv.L, !.vpr = hv.vpr]
 
@@ -185,6 +205,7 @@ IsIdle(K) ==
      /\ K.scroll = <<>> /\ K.hscroll = <<>>
      /\ K.mcd = 0
      /\ K.vpr = <<>>
+     /\ K.dyn.rep = <<>>                       \* dynamic_macro_replay_state.is_none()
      /\ ~\E i \in DOMAIN L.states :
             L.states[i].t \in {"scp", "sca"} \/ (pressedMeansNotIdle /\ L.states[i].t = "nk")
 
@@ -199,8 +220,27 @@ CanBlockUpdate(K) ==
 
 \* ----- the deterministic stepper (DESIGN 3.1) ---------------------------------------------
 \* one Tick = tick_ms(1) ; can_block_update_idle_waiting(1)
+\* src: mod.rs tick_ms (801-827 at the pinned commit) with ms_elapsed = 1: tick_states, then the
+\* replay cursor may hand one recorded key event to the layout; with the `recorded` delay behaviour
+\* the recorded gap runs as extra tick_states inside the same call.  `out` accumulates over the
+\* executed ticks, dyn.nt counts them.
+RECURSIVE TickMsExtra(_, _)
+TickMsExtra(K, n) ==
+  IF n = 0 \/ K.L.panic # "" THEN K
+  ELSE LET K1 == TickStates(K)
+           r == DmTickReplay(K1.dyn, Opts.dynamic_macro_replay_delay_behaviour = "Recorded")
+           K2 == [K1 EXCEPT !.out = K.out \o @, !.dyn = [r.D EXCEPT !.nt = K.dyn.nt + 1]]
+       IN IF r.ev # <<>> THEN K2            \* "overshot to next event": the event is dropped, break
+          ELSE TickMsExtra(K2, n - 1)
+TickMs(K) ==
+  LET K1 == TickStates(K)
+      r == DmTickReplay(K1.dyn, Opts.dynamic_macro_replay_delay_behaviour = "Recorded")
+      K2 == [K1 EXCEPT !.dyn = [r.D EXCEPT !.nt = 1]]
+  IN IF r.ev = <<>> THEN K2
+     ELSE TickMsExtra([K2 EXCEPT !.L = EventL(@, Qd(r.ev[1].p, 0, r.ev[1].c))], SatSub(r.ev[1].d, 1))
+
 StepTick(K) ==
-  LET K1 == TickStates([K EXCEPT !.out = <<>>])
+  LET K1 == TickMs([K EXCEPT !.out = <<>>])
       c == CanBlockUpdate(K1)
   IN [K |-> c.K, idle |-> IsIdle(K1), cb |-> c.cb]
 \* ----- projection on what the harness can observe without hooks (binding B) ---------------
@@ -220,4 +260,5 @@ Proj(K) ==
     ost |-> L.os.timeout, osrn |-> L.os.rnt, osp |-> L.os.pticks, osi |-> L.os.ignore,
     lpc |-> L.lpc, lpt |-> L.lpt, nseq |-> Len(L.seqs), naq |-> Len(L.aq), dl |-> L.dl,
     prev |-> K.prev, tsi |-> K.tsi, nwfi |-> Cardinality(K.wfi), nvpr |-> Len(K.vpr) ]
+  @@ DmProj(K.dyn)
 =============================================================================
